@@ -80,6 +80,9 @@ def handle_state_step(tlv_dict, expected_state):
         # Some devices go against the spec and don't include kTLVType_State
         # https://github.com/Jc2k/aiohomekit/issues/20
         # iOS tolerates this, so we do do
+        # An error reported by the accessory still has to fail the step
+        if TLV.kTLVType_Error in tlv_dict:
+            error_handler(tlv_dict[TLV.kTLVType_Error], f"step {expected_state}")
         return
 
     if actual_state != expected_state:
